@@ -13,7 +13,8 @@
 EXTENDS Naturals, Sequences, FiniteSets, TLC
 LOCAL PP == INSTANCE PipelineProps
 
-OutFams  == {"xml", "soap11", "soap12", "json", "yaml", "msgpack", "mprpc", "http"}
+\* json_list: JsonDocument(complex_as=list) - objects, the fault included, travel as positional lists
+OutFams  == {"xml", "soap11", "soap12", "json", "yaml", "msgpack", "mprpc", "http", "json_list"}
 Soap     == {"soap11", "soap12"}
 First    == {"Client", "Server", "X", "Clientele"}     \* ("Clientele...": begins like Client, is not the Client family)
 Subs     == {<<>>, <<"A">>, <<"b", "uu">>, <<"Q", "R", "S">>}
@@ -59,20 +60,27 @@ Pairwise(f) == f.kind # "fault" \/ f.cls \notin {"fault", "subclass"}
 \*   retlis   in a listener of the service's method_return_object event (user code that runs after the function returned)
 \*   sw_json / sw_soap11   in the user function, AFTER it has chosen another output protocol for this request
 \*            (ctx.out_protocol = ...): the fault travels in the protocol of THIS request, status line included
-Wheres == {"fn", "retlis", "sw_json", "sw_soap11"}
+\*   swap     in the user function; a method_exception_object listener then REPLACES the fault (ctx.out_error) by
+\*            Client.Swapped: the client sees the listener's fault, body and status line alike
+Wheres == {"fn", "retlis", "sw_json", "sw_soap11", "swap"}
 EffFam(c) == CASE c.where = "sw_json" -> "json" [] c.where = "sw_soap11" -> "soap11" [] OTHER -> c.fam
 Cases == { c \in [fam : OutFams, meth : Methods, f : {f \in Faults : Pairwise(f)}, where : Wheres] :
              \* the SOAP 1.2 fault vocabulary is closed (property-stated exclusion)
              /\ (c.fam = "soap12" /\ c.f.kind = "fault" => c.f.code[1] \in {"Client", "Server"})
              /\ (c.meth \in {"g", "gen"} => (c.f.msg \in {"plain", "secret", "class"} /\ c.f.detail \in {"none", "multi"}))
-             /\ (c.where # "fn" => c.meth = "f" /\ c.f.msg \in {"plain", "secret", "class"} /\ c.f.detail \in {"none", "flat"})
+             /\ (c.where \notin {"fn", "swap"} => c.meth = "f")
+             /\ (c.where # "fn" => c.f.msg \in {"plain", "secret", "class"} /\ c.f.detail \in {"none", "flat"})
+             /\ (c.where = "swap" => c.meth \in {"f", "gen"} /\ (c.f.kind = "exc" \/ c.f.code[1] = "Server") /\ c.f.detail = "none")
              /\ (c.where # "fn" /\ EffFam(c) = "http" => c.f.detail = "none")      \* (the plain-text form has no place for a detail: recorded finding)
              /\ (c.where = "sw_json" => c.fam \in Soap \cup {"xml"})
              /\ (c.where = "sw_soap11" => c.fam \in {"json", "http", "xml", "msgpack"}) }
 
 \* ------------------------------------------------------------------ expected
 Expected(c) ==
-  IF c.f.kind = "exc"
+  IF c.where = "swap"
+    THEN [code |-> <<"Client", "Swapped">>, msg |-> "swapped", detail |-> DetailTree("none"),
+          status |-> PP!Status(EffFam(c) \in Soap, "fault", <<"Client", "Swapped">>)]
+  ELSE IF c.f.kind = "exc"
     THEN [code |-> <<"Server">>, msg |-> "InternalError", detail |-> DetailTree("none"),
           status |-> 500]
     ELSE [code |-> c.f.code, msg |-> c.f.msg, detail |-> DetailTree(c.f.detail),
@@ -97,7 +105,8 @@ TableSane ==
   /\ \A c \in Cases : Expected(c).status \in {400, 401, 404, 405, 413, 500}
   /\ \A c \in Cases : EffFam(c) \in Soap => Expected(c).status = 500
   /\ \E c \in Cases : c.fam \in Soap /\ Expected(c).status = 400
-  /\ \A c \in Cases : c.f.kind = "exc" => Expected(c).code = <<"Server">>
+  /\ \A c \in Cases : (c.f.kind = "exc" /\ c.where # "swap") => Expected(c).code = <<"Server">>
+  /\ \E c \in Cases : c.where = "swap" /\ c.meth = "gen" /\ Expected(c).status = 400
   /\ \E c \in Cases : Expected(c).status = 413
   /\ \E c \in Cases : Expected(c).status = 400 /\ Len(c.f.code) = 4
 =============================================================================
